@@ -24,13 +24,15 @@ func init() {
 		Rule: "trees (depth <= 6) of handler-bind (1-4 bindings over the alphabet {a b c2 error condition internal-panic}, any order, duplicates), ignore-errors, progn, let and function calls; the raise site is error, a host-raised error (verif:fail), a type error, a lisp-forged 'internal-panic or a host panic (verif:panic / nil-map write), placed in a body, in a handler expression, inside a handler body, or as rethrow from an inner handler or outside any handler; " +
 			"the handler FUNCTION is a lambda, a named function fetched by its symbol or by #'name, a host Go function bound directly (verif:hh-value / hh-fail / hh-panic / hh-call: returns a value, raises an ordinary error, panics, calls back into a lisp function) or the builtin list / identity; " +
 			"a handler BODY is a sequence of statements -- handler-bind forms that run to completion inside the running handler (body succeeds; body fails and is handled; error matches no binding and is swallowed by ignore-errors; in line or in a helper function; a host panic contained by an explicit internal-panic binding), each followed by (verif:capture) -- before the final value / (rethrow) / failure; (verif:capture) and (rethrow) are also attempted after a form has finished and in a later top-level form, outside any handler; " +
-			"value, condition, ordered effect trace and the identity pattern of errors seen by (verif:capture) versus the error finally returned are compared with the reference interpreter. distinct_nontrivial counts distinct (nesting skeleton, raise kind, raise position, outcome) signatures",
+			"every raise site is a callee on arguments (error, verif:fail, car/+/cons/an unbound name, rethrow, a panicking host function: string panic, nil-map write, nil dereference, error-valued panic) and about half of the sites reach their callee otherwise than as the head of an evaluated form (route drawn per site from its own generator, the skeleton of a case does not depend on it): funcall / apply (list, leading arguments) / unpack with the callee given as value, quoted symbol or #'name; callback of map / select / reject / all? / any? / foldl / foldr and, for callees that fail whatever they are called with, stable-sort / insert-sorted / search-sorted; through compose (inner, outer) / flip / curry-function; as a thread-first / thread-last step; after being bound by let, passed to a lambda or a named function, stored in a list or a sorted-map; through a host builtin that calls back through FunCall / FunCallContext / EvalSExpr of the environment it was given; inside a host special operator / host macro that evaluates (expands to) the call; and a host special operator / host macro that itself panics in Go, used directly, through SpecialOpCall / MacroCall / EvalSExpr invoked by a host builtin, and through macroexpand / macroexpand-1; " +
+			"value, condition, ordered effect trace and the identity pattern of errors seen by (verif:capture) versus the error finally returned are compared with the reference interpreter; a disagreement that disappears when every callee is called directly is re-run with one routed site at a time and reported under that route's key. distinct_nontrivial counts distinct (nesting skeleton incl. routes, raise kind, raise position, outcome) signatures; the run is inconclusive unless every route carried a host panic in a judged case",
 		Assumptions: []string{
 			"error data is restricted to self-evaluating values (the handler call re-evaluates data cells; that re-evaluation is not part of the statement)",
 			"message text of evaluator-raised errors is not predicted (opaque); identity of the rethrown error is judged by pointer equality with what the handler saw",
 		},
 		Cases:       func(tier string) int { return pick(tier, 30000, 1000000) },
 		Run:         c06Run,
+		Driver:      c06Driver,
 		MinDistinct: func(tier string) int { return pick(tier, 400, 1200) },
 	})
 }
@@ -46,6 +48,13 @@ type c06Gen struct {
 	// use handler-bind.
 	prelude []*sx.N
 	nfun    int
+	// the reach dimension (c06_reach.go): rrOf gives raise site n its own generator, mask
+	// (when set) says which sites may be routed at all, sites records the routed ones.
+	rrOf         func(n int) *fw.RNG
+	mask         func(n int) bool
+	nsite        int
+	sites        []c06Site
+	needCallWith bool
 }
 
 var c06Conds = []string{"a", "b", "c2", "error", "condition", "internal-panic"}
@@ -88,23 +97,24 @@ func (g *c06Gen) raiseForm() *sx.N {
 		for i := g.r.Intn(3); i > 0; i-- {
 			args = append(args, g.datum())
 		}
-		return sx.Call("error", args...)
+		return g.site("error", "error", args)
 	case k < 7:
 		c := fw.Pick(g.r, c06RaiseConds)
 		g.raise["host-fail:"+c] = true
-		return sx.Call("verif:fail", sx.QY(c), g.datum())
+		return g.site("host-fail", "verif:fail", []*sx.N{sx.QY(c), g.datum()})
 	case k < 9:
 		g.raise["type-error"] = true
-		return fw.Pick(g.r, []*sx.N{sx.Call("car", sx.I(5)), sx.Call("+", sx.I(1), sx.S("x")), sx.Call("undefined-fn", sx.I(1)), sx.Call("cons", sx.I(1))})
+		f := fw.Pick(g.r, []*sx.N{sx.Call("car", sx.I(5)), sx.Call("+", sx.I(1), sx.S("x")), sx.Call("undefined-fn", sx.I(1)), sx.Call("cons", sx.I(1))})
+		return g.site("type-error", f.L[0].S, f.L[1:])
 	case k < 11:
 		g.raise["host-panic"] = true
 		if g.r.Bool() {
-			return sx.Call("verif:panic")
+			return g.panicSite("verif:panic", []string{"verif:panic", "verif:panic-error"})
 		}
-		return sx.Call("list", sx.I(1), sx.Call("verif:nilmap"))
+		return sx.Call("list", sx.I(1), g.panicSite("verif:nilmap", []string{"verif:nilderef"}))
 	default:
 		g.raise["rethrow"] = true
-		return sx.Call("rethrow")
+		return g.site("rethrow", "rethrow", nil)
 	}
 }
 
@@ -128,7 +138,7 @@ func (g *c06Gen) handlerBody(d int) []*sx.N {
 		body = append(body, sx.Call("list", sx.QY("handled"), sx.Y("c"), sx.Y("args")))
 	case 2, 3:
 		g.skel = append(g.skel, "rethrow")
-		body = append(body, sx.Call("rethrow"))
+		body = append(body, g.site("rethrow", "rethrow", nil))
 	case 4:
 		body = append(body, g.raiseForm())
 	case 5:
@@ -215,10 +225,10 @@ func (g *c06Gen) handlerStmt(d int) *sx.N {
 		if g.r.Chance(1, 4) {
 			spec = "condition"
 		}
-		st = sx.Call("handler-bind", sx.L(sx.L(sx.Y(spec), g.handlerFn(d-1))), sx.Call("error", sx.QY(c), g.datum()))
+		st = sx.Call("handler-bind", sx.L(sx.L(sx.Y(spec), g.handlerFn(d-1))), g.site("error", "error", []*sx.N{sx.QY(c), g.datum()}))
 	case 4, 5:
 		g.skel = append(g.skel, "hs-hb-unmatched")
-		st = sx.Call("handler-bind", sx.L(sx.L(sx.Y(fw.Pick(g.r, []string{"a", "b"})), g.handlerFn(d-1))), sx.Call("error", sx.QY(fw.Pick(g.r, []string{"c2", "zz"})), g.datum()))
+		st = sx.Call("handler-bind", sx.L(sx.L(sx.Y(fw.Pick(g.r, []string{"a", "b"})), g.handlerFn(d-1))), g.site("error", "error", []*sx.N{sx.QY(fw.Pick(g.r, []string{"c2", "zz"})), g.datum()}))
 	default:
 		g.skel = append(g.skel, "hs-form")
 		st = g.form(d - 1)
@@ -313,7 +323,7 @@ func (g *c06Gen) form(d int) *sx.N {
 			// what is the condition being handled AFTER the form has finished, and what does
 			// (rethrow) do there: outside any handler it is an ordinary error
 			g.skel = append(g.skel, "then-rethrow")
-			return sx.Call("progn", g.form(d-1), sx.Call("verif:capture"), sx.Call("rethrow"))
+			return sx.Call("progn", g.form(d-1), sx.Call("verif:capture"), g.site("rethrow", "rethrow", nil))
 		}
 		g.skel = append(g.skel, "progn")
 		return sx.Call("progn", g.probe("before", sx.I(1)), g.form(d-1), g.probe("after", sx.I(2)))
@@ -335,9 +345,20 @@ func (g *c06Gen) form(d int) *sx.N {
 	return g.probe("v", sx.I(int64(g.r.Intn(100))))
 }
 
-func c06Run(w *fw.W, idx int) {
+// c06Case is one generated program.
+type c06Case struct {
+	g     *c06Gen
+	depth int
+	forms []*sx.N
+	src   string
+}
+
+// c06Build generates case idx.  mask (nil: every site) says which raise sites may reach
+// their callee by a route other than the direct call; the skeleton does not depend on it.
+func c06Build(w *fw.W, idx int, mask func(n int) bool) *c06Case {
 	r := w.RNG(idx, "prog")
-	g := &c06Gen{r: r, raise: map[string]bool{}}
+	g := &c06Gen{r: r, raise: map[string]bool{}, mask: mask}
+	g.rrOf = func(n int) *fw.RNG { return w.RNG(idx, fmt.Sprintf("reach/%d", n)) }
 	depth := r.Range(1, 6)
 	var forms []*sx.N
 	for i := r.Range(1, 3); i > 0; i-- {
@@ -350,118 +371,62 @@ func c06Run(w *fw.W, idx int) {
 		forms = append(forms, sx.Call("verif:capture"))
 		switch r.Intn(3) {
 		case 0:
-			forms = append(forms, sx.Call("rethrow"))
+			forms = append(forms, g.site("rethrow", "rethrow", nil))
 		case 1:
-			forms = append(forms, sx.Call("ignore-errors", sx.Call("rethrow")))
+			forms = append(forms, sx.Call("ignore-errors", g.site("rethrow", "rethrow", nil)))
 		default:
-			forms = append(forms, sx.Call("handler-bind", sx.L(sx.L(sx.Y("condition"), g.handlerLambda(0))), sx.Call("rethrow")))
+			forms = append(forms, sx.Call("handler-bind", sx.L(sx.L(sx.Y("condition"), g.handlerLambda(0))), g.site("rethrow", "rethrow", nil)))
 		}
 	}
 	forms = append(g.prelude, forms...)
-	src := sx.Render(forms, nil)
+	if g.needCallWith {
+		forms = append([]*sx.N{c06CallWith()}, forms...)
+	}
+	return &c06Case{g: g, depth: depth, forms: forms, src: sx.Render(forms, nil)}
+}
 
-	rr := rt.New(rt.Opts{MaxSteps: 400_000})
-	v := rr.Env.LoadString("c06", src)
+// c06Result is what running one program on the real interpreter and on the model gave.
+type c06Result struct {
+	declined bool
+	key      string // "" = agreement
+	summary  string
+	detail   string
+	v        *lisp.LVal
+	rr       *rt.R
+}
+
+func c06Run(w *fw.W, idx int) {
+	c := c06Build(w, idx, nil)
+	res := c06Judge(w, c)
 	w.Eval(1)
-	in := refint.New()
-	mv, merr := func() (mv *refint.V, me *refint.Err) {
-		defer func() {
-			if rec := recover(); rec != nil {
-				me = &refint.Err{Cond: fmt.Sprint("<model panic: ", rec, ">"), Unsure: true}
-			}
-		}()
-		return in.LoadForms(forms)
-	}()
-	w.Logf("source:\n%s\nreal: %s\nmodel: %v %v", src, v, mv, merr)
-	if merr != nil && (merr.Fuel || merr.Unsure) {
+	if res.declined {
 		w.Count("model_declined", 1)
 		return
 	}
-	detail := func() string {
-		return fmt.Sprintf("source:\n%s\nreal: %s\n real trace: %v\nmodel: val=%v err=%v\n model trace: %s", src, v, rr.Trace, c06Val(mv), merr, in.TraceString())
-	}
-	// trace
-	if len(rr.Trace) != len(in.Trace) {
-		w.Violation("condition-model-disagreement:trace", fmt.Sprintf("effect trace length %d vs model %d", len(rr.Trace), len(in.Trace)), detail())
+	g, v, rr := c.g, res.v, res.rr
+	if res.key != "" {
+		key, summary, detail := res.key, res.summary, res.detail
+		if len(g.sites) > 0 {
+			// Does the disagreement come from HOW a callee is reached?  The same program
+			// with every callee called directly, then with one routed site at a time.
+			direct := c06Judge(w, c06Build(w, idx, func(int) bool { return false }))
+			if !direct.declined && direct.key == "" {
+				key = "raise-reached-via:several-routes-together:" + res.key
+				for _, s := range g.sites {
+					one := c06Judge(w, c06Build(w, idx, func(n int) bool { return n == s.n }))
+					if !one.declined && one.key != "" {
+						key = "raise-reached-via:" + s.route + ":" + s.kind
+						summary = fmt.Sprintf("%s; with every callee called directly the program agrees with the model, with only this site routed: %s: %s", s, one.key, one.summary)
+						detail = one.detail
+						break
+					}
+				}
+			}
+		}
+		w.Violation(key, summary, detail)
 		return
-	}
-	for i := range rr.Trace {
-		a, b := rr.Trace[i], in.Trace[i]
-		ok := a.Tag == b.Tag && len(a.Trees) == len(b.Vals)
-		for j := 0; ok && j < len(a.Trees); j++ {
-			ok = tree.Equal(a.Trees[j], b.Vals[j], tree.Opts{IgnoreQuote: true})
-		}
-		if !ok {
-			w.Violation("condition-model-disagreement:trace", fmt.Sprintf("effect %d differs: real %s vs model %s", i, a.String(), b.Tag), detail())
-			return
-		}
 	}
 	realErr := v.Type == lisp.LError
-	switch {
-	case realErr != (merr != nil):
-		w.Violation("condition-model-disagreement:error-vs-value", fmt.Sprintf("real %s vs model val=%v err=%v", trunc(v.String(), 200), c06Val(mv), merr), detail())
-		return
-	case realErr:
-		if v.Str != merr.Cond {
-			w.Violation("condition-model-disagreement:condition", fmt.Sprintf("condition %s vs model %s", v.Str, merr.Cond), detail())
-			return
-		}
-		if lisp.IsInternalPanic(v) != merr.Panic {
-			w.Violation("host-panic-marker-wrong", fmt.Sprintf("IsInternalPanic=%v but the model says host panic=%v", lisp.IsInternalPanic(v), merr.Panic), detail())
-			return
-		}
-		// data of lisp/host raised errors
-		if merr.Class == "user" || merr.Class == "host-fail" {
-			if len(v.Cells) != len(merr.Data) {
-				w.Violation("error-data-changed", fmt.Sprintf("error data has %d cells, model %d", len(v.Cells), len(merr.Data)), detail())
-				return
-			}
-			for i := range v.Cells {
-				if !tree.Equal(tree.FromLVal(v.Cells[i]), merr.Data[i].ToTree(), tree.Opts{IgnoreQuote: true}) {
-					w.Violation("error-data-changed", fmt.Sprintf("error data cell %d: %s vs model %s", i, v.Cells[i], merr.Data[i].ToTree()), detail())
-					return
-				}
-			}
-		}
-	default:
-		if !tree.Equal(tree.FromLVal(v), mv.ToTree(), tree.Opts{IgnoreQuote: true}) {
-			w.Violation("condition-model-disagreement:value", fmt.Sprintf("value %s vs model %s", trunc(v.String(), 200), mv.ToTree()), detail())
-			return
-		}
-	}
-	// identity pattern: which captured errors are the one finally returned, and which are each other
-	if len(rr.Captured) != len(in.Captured) {
-		w.Violation("capture-count", fmt.Sprintf("%d vs model %d", len(rr.Captured), len(in.Captured)), detail())
-		return
-	}
-	for i := range rr.Captured {
-		if (rr.Captured[i] == nil) != (in.Captured[i] == nil) {
-			w.Violation("current-condition-wrong", fmt.Sprintf("capture %d: a condition being handled is %v but the model says %v", i, rr.Captured[i] != nil, in.Captured[i] != nil), detail())
-			return
-		}
-		if realErr && rr.Captured[i] != nil {
-			same := rr.Captured[i] == v
-			msame := in.Captured[i] == merr
-			if same != msame {
-				w.Violation("rethrow-identity", fmt.Sprintf("capture %d: the error returned to the host is%s the object the handler saw, the model says it is%s", i, c06Not(same), c06Not(msame)), detail())
-				return
-			}
-			if same {
-				// same object: condition, data and stack trace are trivially those of the handled error;
-				// additionally the stack must still be the one recorded at the raise site
-				if st := v.CallStack(); st == nil {
-					w.Violation("rethrow-lost-stack", "the rethrown error carries no call stack", detail())
-					return
-				}
-			}
-		}
-		for j := 0; j < i; j++ {
-			if rr.Captured[i] != nil && rr.Captured[j] != nil && (rr.Captured[i] == rr.Captured[j]) != (in.Captured[i] == in.Captured[j]) {
-				w.Violation("rethrow-identity", fmt.Sprintf("captures %d and %d identity differs from the model", j, i), detail())
-				return
-			}
-		}
-	}
 	out := "value"
 	if realErr {
 		out = "err:" + v.Str
@@ -473,7 +438,10 @@ func c06Run(w *fw.W, idx int) {
 	for _, k := range g.skel {
 		uniq[k] = true
 	}
-	sk := fmt.Sprintf("d%d:", depth) + strings.Join(tree.SortedKeys(uniq), ",")
+	for _, s := range g.sites {
+		uniq["reach:"+s.route] = true
+	}
+	sk := fmt.Sprintf("d%d:", c.depth) + strings.Join(tree.SortedKeys(uniq), ",")
 	for rk := range g.raise {
 		w.CoverKey(sk + "|" + rk + "|" + out)
 	}
@@ -482,9 +450,135 @@ func c06Run(w *fw.W, idx int) {
 	}
 	w.Count("captures_checked", int64(len(rr.Captured)))
 	w.Count("probe_events", int64(len(rr.Trace)))
-	if w.WantSample() && len(rr.Captured) > 0 && len(src) < 700 {
-		w.Sample(map[string]any{"source": src, "outcome": trunc(v.String(), 200), "handlers_run": len(rr.Captured)})
+	// the reach dimension: what was generated in judged cases
+	w.Count("raise_sites", int64(g.nsite))
+	w.Count("raise_sites_routed", int64(len(g.sites)))
+	panicRouted := false
+	for _, s := range g.sites {
+		w.SetAdd("raise_routes_judged", s.kind+" via "+s.route)
+		w.SetAdd("callee_designators_judged", s.route+" "+s.desig)
+		if s.kind == "host-panic" {
+			w.SetAdd("panic_routes_judged", s.route)
+			panicRouted = true
+		}
 	}
+	if len(g.sites) > 0 {
+		w.Count("cases_with_routed_site", 1)
+		w.SetAdd("outcomes_of_cases_with_routed_site", out)
+	}
+	if panicRouted && realErr && lisp.IsInternalPanic(v) {
+		w.Count("cases_with_routed_host_panic_ending_in_marked_panic", 1)
+	}
+	if w.WantSample() && len(rr.Captured) > 0 && len(c.src) < 700 {
+		w.Sample(map[string]any{"source": c.src, "outcome": trunc(v.String(), 200), "handlers_run": len(rr.Captured)})
+	}
+}
+
+// c06Judge runs one program on the real interpreter and on the reference model and
+// compares value, condition, marker, data, effect trace and the identity pattern.
+func c06Judge(w *fw.W, c *c06Case) (res c06Result) {
+	forms, src := c.forms, c.src
+	rr := rt.New(rt.Opts{MaxSteps: 400_000})
+	rr.AddCallRouteProbes()
+	v := rr.Env.LoadString("c06", src)
+	res.v, res.rr = v, rr
+	in := refint.New()
+	in.InstallCallRoutes()
+	mv, merr := func() (mv *refint.V, me *refint.Err) {
+		defer func() {
+			if rec := recover(); rec != nil {
+				me = &refint.Err{Cond: fmt.Sprint("<model panic: ", rec, ">"), Unsure: true}
+			}
+		}()
+		return in.LoadForms(forms)
+	}()
+	w.Logf("source:\n%s\nreal: %s\nmodel: %v %v", src, v, mv, merr)
+	if merr != nil && (merr.Fuel || merr.Unsure) {
+		w.Logf("model declined: %s", merr.Cond)
+		res.declined = true
+		return
+	}
+	detail := func() string {
+		var sites strings.Builder
+		for _, s := range c.g.sites {
+			sites.WriteString("\n " + s.String())
+		}
+		return fmt.Sprintf("source:\n%s\nrouted raise sites:%s\nreal: %s\n real trace: %v\nmodel: val=%v err=%v\n model trace: %s", src, sites.String(), v, rr.Trace, c06Val(mv), merr, in.TraceString())
+	}
+	violation := func(key, summary string) c06Result {
+		res.key, res.summary, res.detail = key, summary, detail()
+		return res
+	}
+	// trace
+	if len(rr.Trace) != len(in.Trace) {
+		return violation("condition-model-disagreement:trace", fmt.Sprintf("effect trace length %d vs model %d", len(rr.Trace), len(in.Trace)))
+	}
+	for i := range rr.Trace {
+		a, b := rr.Trace[i], in.Trace[i]
+		ok := a.Tag == b.Tag && len(a.Trees) == len(b.Vals)
+		for j := 0; ok && j < len(a.Trees); j++ {
+			ok = tree.Equal(a.Trees[j], b.Vals[j], tree.Opts{IgnoreQuote: true})
+		}
+		if !ok {
+			return violation("condition-model-disagreement:trace", fmt.Sprintf("effect %d differs: real %s vs model %s", i, a.String(), b.Tag))
+		}
+	}
+	realErr := v.Type == lisp.LError
+	switch {
+	case realErr != (merr != nil):
+		return violation("condition-model-disagreement:error-vs-value", fmt.Sprintf("real %s vs model val=%v err=%v", trunc(v.String(), 200), c06Val(mv), merr))
+	case realErr:
+		if v.Str != merr.Cond {
+			return violation("condition-model-disagreement:condition", fmt.Sprintf("condition %s vs model %s", v.Str, merr.Cond))
+		}
+		if lisp.IsInternalPanic(v) != merr.Panic {
+			return violation("host-panic-marker-wrong", fmt.Sprintf("IsInternalPanic=%v but the model says host panic=%v", lisp.IsInternalPanic(v), merr.Panic))
+		}
+		// data of lisp/host raised errors
+		if merr.Class == "user" || merr.Class == "host-fail" {
+			if len(v.Cells) != len(merr.Data) {
+				return violation("error-data-changed", fmt.Sprintf("error data has %d cells, model %d", len(v.Cells), len(merr.Data)))
+			}
+			for i := range v.Cells {
+				if !tree.Equal(tree.FromLVal(v.Cells[i]), merr.Data[i].ToTree(), tree.Opts{IgnoreQuote: true}) {
+					return violation("error-data-changed", fmt.Sprintf("error data cell %d: %s vs model %s", i, v.Cells[i], merr.Data[i].ToTree()))
+				}
+			}
+		}
+	default:
+		if !tree.Equal(tree.FromLVal(v), mv.ToTree(), tree.Opts{IgnoreQuote: true}) {
+			return violation("condition-model-disagreement:value", fmt.Sprintf("value %s vs model %s", trunc(v.String(), 200), mv.ToTree()))
+		}
+	}
+	// identity pattern: which captured errors are the one finally returned, and which are each other
+	if len(rr.Captured) != len(in.Captured) {
+		return violation("capture-count", fmt.Sprintf("%d vs model %d", len(rr.Captured), len(in.Captured)))
+	}
+	for i := range rr.Captured {
+		if (rr.Captured[i] == nil) != (in.Captured[i] == nil) {
+			return violation("current-condition-wrong", fmt.Sprintf("capture %d: a condition being handled is %v but the model says %v", i, rr.Captured[i] != nil, in.Captured[i] != nil))
+		}
+		if realErr && rr.Captured[i] != nil {
+			same := rr.Captured[i] == v
+			msame := in.Captured[i] == merr
+			if same != msame {
+				return violation("rethrow-identity", fmt.Sprintf("capture %d: the error returned to the host is%s the object the handler saw, the model says it is%s", i, c06Not(same), c06Not(msame)))
+			}
+			if same {
+				// same object: condition, data and stack trace are trivially those of the handled error;
+				// additionally the stack must still be the one recorded at the raise site
+				if st := v.CallStack(); st == nil {
+					return violation("rethrow-lost-stack", "the rethrown error carries no call stack")
+				}
+			}
+		}
+		for j := 0; j < i; j++ {
+			if rr.Captured[i] != nil && rr.Captured[j] != nil && (rr.Captured[i] == rr.Captured[j]) != (in.Captured[i] == in.Captured[j]) {
+				return violation("rethrow-identity", fmt.Sprintf("captures %d and %d identity differs from the model", j, i))
+			}
+		}
+	}
+	return res
 }
 
 func c06Val(v *refint.V) string {
